@@ -142,6 +142,66 @@ class _ReadHandle:
         return False
 
 
+class _BinWriteHandle:
+    """Binary write handle (pickle.dump of the spatial index): same fault points as text."""
+
+    def __init__(self, fs, path):
+        self.fs = fs
+        self.path = path
+        self.closed = False
+        fs.files[path] = b""
+        fs.open_writes[path] = self
+
+    def write(self, b):
+        if self.closed:
+            raise ValueError("I/O operation on closed file.")
+        if self.fs.plan.tick("write"):
+            if self.fs.plan.kind == "crash":
+                raise SimCrash("crash during write to " + self.path)
+            raise OSError(self.fs.plan.errno, _real_os.strerror(self.fs.plan.errno), self.path)
+        self.fs.files[self.path] += bytes(b)
+        self.fs.bytes_written += len(b)
+        return len(b)
+
+    def close(self):
+        if self.closed:
+            return
+        self.closed = True
+        self.fs.open_writes.pop(self.path, None)
+        if self.fs.plan.tick("close"):
+            self.fs.torn.add(self.path)
+            raise OSError(self.fs.plan.errno, _real_os.strerror(self.fs.plan.errno), self.path)
+
+    def flush(self):
+        pass
+
+
+class _BinReadHandle:
+    def __init__(self, fs, path, data):
+        self.fs = fs
+        self.path = path
+        self._io = io.BytesIO(data)
+
+    def _tick(self):
+        if self.fs.plan.tick("read"):
+            raise OSError(self.fs.plan.errno, _real_os.strerror(self.fs.plan.errno), self.path)
+
+    def read(self, *a):
+        self._tick()
+        return self._io.read(*a)
+
+    def readline(self, *a):
+        self._tick()
+        return self._io.readline(*a)
+
+    def readinto(self, b):
+        self._tick()
+        return self._io.readinto(b)
+
+    def close(self):
+        pass
+
+
 class SimFS:
     def __init__(self):
         self.files = {}
@@ -156,10 +216,14 @@ class SimFS:
     def open(self, path, mode="r", *a, **k):
         if not isinstance(path, str) or not path.startswith(SIMROOT + "/"):
             return io.open(path, mode, *a, **k)     # resource files of the repo
-        if "b" in mode:
-            raise HarnessError("binary open on simulated disk: " + path)
         if self.plan.tick("open"):
             raise OSError(self.plan.errno, _real_os.strerror(self.plan.errno), path)
+        if "b" in mode:
+            if "w" in mode:
+                return _BinWriteHandle(self, path)
+            if path not in self.files or not isinstance(self.files[path], bytes):
+                raise FileNotFoundError(_errno.ENOENT, "No such file or directory", path)
+            return _BinReadHandle(self, path, self.files[path])
         if "w" in mode or "a" in mode:
             d = path.rsplit("/", 1)[0]
             if d not in self.dirs:
